@@ -77,7 +77,8 @@ PROPS["C18"] = {
                   "list under the stated hypothesis that answers are response telegrams, with the O1 deviation (bare SC marks without Discovered) proved "
                   "as the only one and exhibited. Both models are tied to the crate on every run by replaying ~3600 generated histories (~600k polls: "
                   "appear/disappear/ident change, lost replies, SC/token/request/wrong-SAP/short/undecodable answers, own address in the population) "
-                  "and comparing every request (wire bytes), event and station set; the theorems' oracles run on the crate's transcripts.",
+                  "and comparing every request (wire bytes), event and station set; the oracle suite run on the crate's transcripts is itself proved to hold "
+                  "of every model transcript (C18_oracle_sound), so an oracle failure can only come from the crate.",
     "level_note": "Trusted: Coq kernel, translator, extraction + OCaml driver, Rust harness (which also plays the environment); hand models validated "
                   "differentially, not verified; the FDL call contract (C15) is an assumption here.",
     "design_ref": "DESIGN.md section 4, C18",
